@@ -299,8 +299,10 @@ class SVGImage:
 def get_image_from_uri(cache, url_fetcher, options, url, forced_mime_type=None,
                        context=None, orientation='from-image'):
     """Get an Image instance from an image URI."""
-    # Loaded images depend on their orientation
-    key = f'{url} {orientation}'
+    # Loaded images depend on their orientation and on image options
+    image_options = (
+        options['dpi'], options['optimize_images'], options['jpeg_quality'])
+    key = f'{url} {orientation} {image_options}'
     if key in cache:
         return cache[key]
 
